@@ -49,6 +49,7 @@ def gen(seed, idx, tier):
                 "probes": rnd.random() < 0.6,
                 "progress_interval": rnd.choice([0, 1, 3, 1000000]),
                 "monitor": rnd.random() < 0.25,
+                "name_taken": rnd.random() < 0.3,
                 "pause_on_interrupt": rnd.random() < 0.5,
                 "threads": rnd.choice([1, 1, 2, 4]),
                 "clock": {"start": 1.7e9 + rnd.randrange(10**6), "steps": [rnd.choice([0.01, 1.0, -5.0, 3600.0]) for _ in range(3)]},
@@ -110,6 +111,10 @@ def run_observers(scn):
             s["options"]["monitor"] = ob["monitor"]
             s["options"]["pause_on_interrupt"] = ob["pause_on_interrupt"]
             s["observer"] = {"output": ob["output"]}
+            if ob.get("name_taken") and ob["output"] is not None:
+                # the requested output name is already taken (the script is run a second time): the run goes
+                # to a fresh name, and what its Solution shows must still be this run
+                s["observer"]["preexisting"] = {ob["output"]["path"]: "h5"}
             s["env"] = {"threads": ob["threads"], "clock": ob["clock"]}
             if not ob["probes"]:
                 s["device"]["probes"] = None
